@@ -1,30 +1,18 @@
 #!/bin/bash
-# confirm_seed.sh <seed-id> <srcdir with patch.diff demo.cpp run_demo.sh meta.json>
-# Confirms, in a scratch worktree of /repo HEAD, that the patch applies, builds, passes the existing
-# suite, and that the demonstration fails with it and passes without it. Copies the seed to /verif/seeded/<id>/.
-set -u
-ID=$1; SRC=$2
-WT=/tmp/confirm_$ID
-DST=/verif/seeded/$ID
-mkdir -p $DST
-cp $SRC/patch.diff $SRC/demo.cpp $SRC/run_demo.sh $SRC/meta.json $DST/ 2>/dev/null
-LOG=$DST/confirm.log
-: > $LOG
-git -C /repo worktree remove --force $WT >/dev/null 2>&1
-git -C /repo worktree add -f $WT HEAD >>$LOG 2>&1 || { echo "worktree failed" >>$LOG; exit 2; }
-cd $WT
-echo "== base commit: $(git rev-parse HEAD)" >>$LOG
-echo "== demo WITHOUT patch (must pass)" >>$LOG
-( cd $DST && bash ./run_demo.sh $WT ) >>$LOG 2>&1; R0=$?
-echo "exit=$R0" >>$LOG
-git apply $DST/patch.diff >>$LOG 2>&1 || { echo "RESULT: patch does not apply" >>$LOG; git -C /repo worktree remove --force $WT; exit 2; }
-echo "== build + ctest WITH patch" >>$LOG
-( cmake -G Ninja -B _build -DCMAKE_BUILD_TYPE=RelWithDebInfo -DCMAKE_CXX_FLAGS=-Wno-error >/dev/null 2>&1 && cmake --build _build -j${JOBS:-8} 2>&1 | tail -2 && ctest --test-dir _build -j8 2>&1 | tail -4 ) >>$LOG 2>&1; RT=$?
-grep -q "100% tests passed" $LOG && RT=0 || RT=1
-echo "tests_exit=$RT" >>$LOG
-echo "== demo WITH patch (must fail)" >>$LOG
-( cd $DST && bash ./run_demo.sh $WT ) >>$LOG 2>&1; R1=$?
-echo "exit=$R1" >>$LOG
-cd /; git -C /repo worktree remove --force $WT
-if [ $R0 -eq 0 ] && [ $RT -eq 0 ] && [ $R1 -ne 0 ]; then echo "RESULT: CONFIRMED" >>$LOG; else echo "RESULT: NOT CONFIRMED (demo_without=$R0 tests=$RT demo_with=$R1)" >>$LOG; fi
-tail -1 $LOG
+# confirm_seed.sh <seed-id> <property> <worktree-with-patch-applied>: everything the brief asks to be confirmed before a seeded change is kept:
+# demo fails with the patch and passes without it, the whole project builds and its test suite passes with the patch, and what ./check says.
+# Writes seeded/<seed-id>/confirm.log; the caller removes the worktree afterwards.
+SEED=$1; PID=$2; WT=$3; D=/verif/seeded/$SEED; L=$D/confirm.log
+{
+ echo "== base commit: $(git -C $WT rev-parse HEAD)"
+ echo "== demo WITH patch (must fail)"; $D/run_demo.sh $WT > $D/.out 2>&1; RC=$?; head -8 $D/.out; echo "exit=$RC"
+ git -C $WT stash -q
+ echo "== demo WITHOUT patch (must pass)"; $D/run_demo.sh $WT > $D/.out 2>&1; RC=$?; head -8 $D/.out; echo "exit=$RC"
+ git -C $WT stash pop -q
+ echo "== build + ctest WITH patch"
+ ( cd $WT && cmake -G Ninja -S . -B _b -DCMAKE_BUILD_TYPE=RelWithDebInfo -DCMAKE_CXX_FLAGS=-Wno-error >/dev/null 2>&1 && cmake --build _b -j8 2>&1 | tail -1 && ctest --test-dir _b -j8 --timeout 900 2>&1 | tail -3 ); echo "tests_exit=$?"
+ rm -rf $WT/_b $D/.out
+ echo "== /verif check on a patched worktree: tools/try_seed_wt.sh $SEED $PID"
+ /verif/tools/try_seed_wt.sh $SEED $PID
+} > $L 2>&1
+cat $L
